@@ -379,6 +379,15 @@ def programs(tier):
         for o in others:
             out.append(("nest-2t", [(0, [n]), (0, [o])], 2, {}))
             out.append(("nest-2p", [(0, [n]), (1, [o])], 2, {}))
+    # (c2) the same file under two spellings of its path (p and ./p): one lock, whatever the spelling
+    al = "./p"
+    for o in others:
+        out.append(("alias-2t", [(0, [R(path=al)]), (0, [o])], 2, {}))
+        out.append(("alias-2p", [(0, [W(path=al)]), (1, [o])], 2, {}))
+    out.append(("alias-nest-2p", [(0, [W(reentrant=True, kids=[R(path=al, reentrant=True)])]), (1, [R(blocking=False)])], 2, {}))
+    out.append(("alias-nest-2p", [(0, [W(reentrant=True, kids=[R(path=al, reentrant=True)])]), (1, [W()])], 2, {}))
+    out.append(("alias-2p3t", [(0, [R()]), (0, [R(path=al)]), (1, [W(blocking=False)])], 1 if tier == "quick" else 2, {}))
+    out.append(("alias-2p3t", [(0, [R()]), (0, [R(path=al)]), (1, [W()])], 1 if tier == "quick" else 2, {}))
     # (d) sequential reuse (fd pool / refcounts across requests)
     for o in others:
         out.append(("seq-2t", [(0, [R(), W()]), (0, [o])], 2, {}))
